@@ -14,6 +14,7 @@ DECIDED = ("R1 only the sync / crash code mutates durable state (persisted_files
            "files with a durable entry.")
 NOT_DECIDED = ("that the durable image equals the crate's model for every history (path equality under rename chains, order of flushed "
                "ops, orphan reachability); SetPermissions durability (outside the property).")
+DECIDED += "; R8 exhaustive scans: apply_torn_writes, sync_dir, sync_file, sync_file_data consider every pending record"
 ASSUMPTIONS = ["IndexMap / IndexSet / Vec API semantics"]
 
 FS = "turmoil_fs::Fs::"
